@@ -20,7 +20,13 @@ import (
 
 // ---- catalogue ----------------------------------------------------------------------------------
 
-const nasty = "q\"uote b\\ackslash new\nline é \U0001F600"
+var nasty = func() string {
+	s := "q\"uote b\\ackslash é \U0001F600 "
+	for c := 1; c < 0x20; c++ { // every control character except NUL
+		s += string(rune(c))
+	}
+	return s
+}()
 
 func fullLink() intoto.Link {
 	l := gen.Link("step", gen.Arts("src/a.c", gen.H(1), "b", gen.H(2)), gen.Arts("out/a.o", gen.H(3)), "cc", "-c", "a.c")
